@@ -31,6 +31,8 @@ type expDelivery struct {
 }
 
 const cachedForeign = "https://r1.example/n/cached"
+const noteEmptyOrdered = "https://l.example/n/empty-ordered"
+const noteEmptyColl = "https://l.example/n/empty-unordered"
 const ownedMissing = "https://l.example/n/404"
 
 func c04world(a *ap.App) {
@@ -42,6 +44,9 @@ func c04world(a *ap.App) {
 	a.PutDoc(Doc("Collection", RCol, "items", L{Carol}))
 	a.PutDoc(Doc("Note", RNote, "attributedTo", Carol, "content", "remote", "inReplyTo", Note1))
 	a.NotOwned[ownedMissing] = false
+	// owned objects whose likes / shares collections exist but are empty
+	a.PutDoc(Doc("Note", noteEmptyOrdered, "content", "e1", "likes", Emb("OrderedCollection", "", "totalItems", 0), "shares", Emb("OrderedCollection", "", "totalItems", 0)))
+	a.PutDoc(Doc("Note", noteEmptyColl, "content", "e2", "likes", Emb("Collection", "", "totalItems", 0), "shares", Emb("Collection", "", "totalItems", 0)))
 }
 
 func inboxOf(actor string) string {
@@ -335,7 +340,7 @@ func c04cases(thorough bool) []c04case {
 		}
 	}
 	for _, typ := range []string{"Like", "Announce"} {
-		for _, objs := range combos([]interface{}{Note1, Note2, cachedForeign, Emb("Note", Note1, "content", "peer's copy"), ownedMissing}, maxN) {
+		for _, objs := range combos([]interface{}{Note1, Note2, cachedForeign, Emb("Note", Note1, "content", "peer's copy"), ownedMissing, noteEmptyOrdered, noteEmptyColl}, maxN) {
 			add(typ, Doc(typ, RAct, "actor", Carol, "object", val(objs)), 0)
 		}
 	}
